@@ -161,6 +161,14 @@ func (p *dirProp) Check(in map[string]any, model json.RawMessage) Verdict {
 		panic(err)
 	}
 	defer os.RemoveAll(dir)
+	// a directory that does not exist (or is a file) is an error of the constructor, not a crash and not a source
+	for _, nd := range []string{filepath.Join(dir, "no-such-dir"), filepath.Join(dir, "a-file")} {
+		os.WriteFile(filepath.Join(dir, "a-file"), []byte("x"), 0o644)
+		if src, err := journal.NewDirectoryGtfsrtSource(nd); err == nil || src != nil {
+			v.Violations = append(v.Violations, Viol{"c19-nodir", "NewDirectoryGtfsrtSource on a path that is not a directory returns a source / no error"})
+		}
+	}
+	os.Remove(filepath.Join(dir, "a-file"))
 	all := filepath.Join(dir, "all")
 	good := filepath.Join(dir, "good")
 	os.Mkdir(all, 0o755)
